@@ -85,6 +85,7 @@ def run(ctx, R, tier):
     R.rule("C12-R2", "handleRequest: every context field is stored from the request on all paths from the receive to any dispatch site", floor=7)
     R.rule("C12-R3", "oneway snapshot: from_global restores every field of __init__; snapshot taken in the constructor, restored in run() before the target", floor=3)
     R.rule("C12-R4", "_sendExceptionResponse builds its own annotation dict (fresh copy) before merging and sending", floor=1)
+    R.rule("C12-R6", "every received message owns a fresh annotations dict (the client hands it to the context as response annotations)", floor=2)
     R.rule("C12-R5", "client: the reply's annotations are assigned unconditionally, after the sequence check, on every path to a reply-carrying exit", floor=3)
 
     # ---------------------------------------------------------------- R0
@@ -246,6 +247,13 @@ def run(ctx, R, tier):
             ok = False
             why = "_sendExceptionResponse reads current_context.response_annotations"
     R.check(ok, "C12-R4", "_sendExceptionResponse|own-dict", "error replies carry a dict built inside the function", f.loc(sm[0]), why)
+
+    # ---------------------------------------------------------------- R6
+    for fq in ("Pyro5.protocol.ReceivingMessage.__init__", "Pyro5.protocol.ReceivingMessage.add_payload"):
+        g = ctx.fn(fq)
+        sts = [st for st, t, k in stores_in(g.node) if k == "assign" and unparse(t) == "self.annotations"]
+        R.check(bool(sts) and all(is_fresh_dict(st.value) for st in sts), "C12-R6", "%s|fresh-annotations" % fq.split(".", 2)[2], "every received message gets its own annotations dict", g.loc(),
+                "`%s`: messages share one dict object, so annotations written for one reply/request show up in others" % ("; ".join(unparse(st) for st in sts if not is_fresh_dict(st.value)) or "?"))
 
     # ---------------------------------------------------------------- R5
     f = ctx.fn("Pyro5.client.Proxy._pyroInvoke")
